@@ -15,7 +15,8 @@ package main
 // What is translated: every guard (with its comparison operator and the int32 / uint64 casts
 // written out), the order of the guards, which rejection each one produces, every slice index
 // (an index outside the slice is the outcome Panic), the loops (`for i, x := range l` and
-// `for i := 0; i < len(l); i++` with early returns; the accumulator loop of GetSubset), which
+// `for i := 0; i < len(l); i++` with early returns - the latter, when its body starts with
+// `x := l[i]`, is emitted in the same form as the range loop; the accumulator loop of GetSubset), which
 // list is indexed by which variable, and which fields reach the signature data in which role.
 // What stays a parameter: the result of CheckSignature (`check`), of shdb.DecodeAddress
 // (`decode`), of the keyper-set lookup (`lookup`) and of the access node's validateCommonFields.
@@ -603,6 +604,25 @@ func (t *ks) forLoop(s *ast.ForStmt, rest []ast.Stmt) string {
 	body.locals[iv] = true
 	body.wrap = func(v string) string { return "(Some " + t.wrap(v) + ")" }
 	body.fall = "None"
+	// Normal form: `for i := 0; i < len(l); i++ { x := l[i]; ... }` IS `for i, x := range l { ... }`
+	// (l[i] cannot be out of range under the loop condition, nothing in the fragment assigns to l or
+	// i); both spellings are emitted as the range form, so that the choice between them is not
+	// visible in the generated file.
+	if len(s.Body.List) >= 1 {
+		if as, ok := s.Body.List[0].(*ast.AssignStmt); ok && as.Tok == token.DEFINE && len(as.Lhs) == 1 && len(as.Rhs) == 1 {
+			if ix, ok := as.Rhs[0].(*ast.IndexExpr); ok && ksText(ix.X) == ksText(lc.Args[0]) && ksText(ix.Index) == iv {
+				if xid, ok := as.Lhs[0].(*ast.Ident); ok && xid.Name != iv {
+					body.locals[xid.Name] = true
+					b := body.stmts(s.Body.List[1:])
+					if body.err != nil && t.err == nil {
+						t.err = body.err
+					}
+					after := t.stmts(rest)
+					return "match gen_range_until (fun " + iv + " " + xid.Name + " =>\n  " + b + ") " + l + " 0 with\n  | Some gen_r => gen_r\n  | None =>\n  " + after + "\n  end"
+				}
+			}
+		}
+	}
 	b := body.stmts(s.Body.List)
 	if body.err != nil && t.err == nil {
 		t.err = body.err
